@@ -1,6 +1,6 @@
-(* Correspondence glue for C14: one case = module, (listed, excludes, passthrough), a flag "the pass-through
-   apps cannot reach themselves" (computed by the harness), what the real MakeBuilderfromStmt returned
-   (None = it panicked), and for each plain / clustered diagram the arrows parsed from the PlantUML. *)
+(* Correspondence glue for C14: one case = module, (listed, excludes, passthrough), what the real
+   MakeBuilderfromStmt returned (None = it panicked), and for each plain / clustered diagram the arrows parsed
+   from the PlantUML, with the flag "indirect arrows are drawn" of that run. *)
 From Coq Require Import List NArith Bool.
 Import ListNotations.
 Require Import Verif.Ints.IntsModel Verif.Base.Harness.
@@ -10,30 +10,19 @@ Definition arrow_eqb (a b:arrow) : bool :=
   match a, b with (a1,a2,a3), (b1,b2,b3) => N.eqb a1 b1 && N.eqb a2 b2 && Bool.eqb a3 b3 end.
 
 Definition c14_case :=
-  (module * (list id * list id * list id) * bool * option (list dep * list id) * list (bool * list arrow))%type.
-
-Definition subset (a b:list id) : bool := forallb (fun k => mem k b) a.
+  (module * (list id * list id * list id) * option (list dep * list id) * list (bool * list arrow))%type.
 
 Definition c14_ok (c:c14_case) : bool :=
-  match c with (m, (listed, ex, pt), acyclic, obs, views) =>
+  match c with (m, (listed, ex, pt), obs, views) =>
     let r := build m listed ex pt true true (fuel_bound m) in
-    (* 1. the builder *)
+    (* 1. the builder: DepsOut and FinalApps as lists (order and multiplicity) *)
     match r, obs with
     | Ok s, Some (d, f) => list_eqb dep_eqb (deps s) d && list_eqb N.eqb (final s) f
     | Panic, None => true
     | _, _ => false
     end
-    (* 2. the arrows of the plain and clustered diagrams *)
+    (* 2. the arrows of the plain and clustered diagrams, in order *)
     && forallb (fun v => match r with
                          | Ok s => list_eqb arrow_eqb (plain_arrows (seeds m listed ex true) (fst v) (deps s)) (snd v)
                          | _ => false end) views
-    (* 3. model against model: where the walk without the guard terminates, the guard changes neither the
-          dependency list nor the set of final apps *)
-    && (if acyclic then
-          match r, build m listed ex pt false true (fuel_bound m) with
-          | Ok s, Ok s' => list_eqb dep_eqb (deps s) (deps s') && subset (final s) (final s') && subset (final s') (final s)
-          | Panic, Panic => true
-          | _, _ => false
-          end
-        else true)
   end.
